@@ -202,11 +202,10 @@ impl World {
 			node.keys.get_peer_storage_key(),
 			node.cfg.deferred,
 		));
-		let watch = Arc::new(WatchTap {
-			inner: Arc::clone(&monitor),
-			log: Mutex::new(Vec::new()),
-			enabled: AtomicBool::new(true),
-		});
+		let watch = Arc::new(WatchTap::new(Arc::clone(&monitor)));
+		*watch.tools.lock().unwrap() =
+			Some((Arc::clone(&node.keys), Arc::clone(&node.fee), Arc::clone(&node.logger)));
+		watch.check_update_commutes.store(node.check_roundtrip, std::sync::atomic::Ordering::Relaxed);
 		let mgr_bytes = match mgr_bytes {
 			Some(b) => b,
 			None => {
@@ -306,14 +305,31 @@ impl World {
 				let txdata: Vec<(usize, &Transaction)> =
 					b.txs.iter().enumerate().map(|(i, t)| (i + 1, t)).collect();
 				let r = catch(|| {
+					let mut outs = Vec::new();
 					if !txdata.is_empty() {
-						m.transactions_confirmed(&b.header, &txdata, h, &bcast, &fee, &logger);
+						outs.extend(m.transactions_confirmed(&b.header, &txdata, h, &bcast, &fee, &logger));
 					}
-					m.best_block_updated(&b.header, h, &bcast, &fee, &logger);
+					outs.extend(m.best_block_updated(&b.header, h, &bcast, &fee, &logger));
+					outs
 				});
-				if let Err((msg, l)) = r {
-					self.library_panic("Restart monitor sync", msg, l);
-					return;
+				match r {
+					Ok(outs) => {
+						// what a ChainMonitor would do with newly watched outputs: tell the Filter
+						use lightning::chain::Filter;
+						for (txid, list) in outs {
+							for (idx, script) in list {
+								self.nodes[n].filter.register_output(lightning::chain::WatchedOutput {
+									block_hash: None,
+									outpoint: lightning::chain::transaction::OutPoint { txid, index: idx as u16 },
+									script_pubkey: script.script_pubkey,
+								});
+							}
+						}
+					},
+					Err((msg, l)) => {
+						self.library_panic("Restart monitor sync", msg, l);
+						return;
+					},
 				}
 			}
 		}
@@ -334,6 +350,12 @@ impl World {
 			}
 		}
 		self.nodes[n].synced_height = tip;
+		self.nodes[n].view = (0..=tip).map(|h| self.chain.block_at(h).header.block_hash()).collect();
+		if self.nodes[n].check_styles {
+			// a different delivery style after each restart
+			self.nodes[n].style = (self.nodes[n].style + 1 + (self.nodes[n].incarnation as u8 % 3)) % crate::chainstyle::N_STYLES;
+			self.make_shadows(n);
+		}
 	}
 }
 
